@@ -307,8 +307,15 @@ def to_cyc_ref(t):
 
 @st.composite
 def cyc_cases(draw):
-    op = draw(st.sampled_from(("to_cyc", "sqr_cyc", "sqr_cyc_gt", "exp_nodiv", "to_cyc_pow")))
+    op = draw(st.sampled_from(("to_cyc", "sqr_cyc", "sqr_cyc_gt", "exp_nodiv", "to_cyc_pow", "exp_gt", "exp_gt")))
     c = {"op": op}
+    if op == "exp_gt":
+        # the GT fast paths (four-way Frobenius exponentiation) incl. exponents whose base-|x| digits are all zero
+        c["t"] = draw(gens.scalars(256))[1]
+        c["k"] = draw(st.one_of(st.sampled_from((0, 1, F.R_ORDER, F.R_ORDER - 1, F.R_ORDER + 1, -F.X, F.X * F.X)), gens.scalars(256).map(lambda x: x[1])))
+        c["how"] = draw(st.sampled_from(("div", "nodiv", "auto")))
+        c["prefill"] = draw(st.sampled_from(("garbage", "base")))
+        return c
     if op in ("to_cyc", "to_cyc_pow", "sqr_cyc", "exp_nodiv"):
         sa, a = draw(elem(12))
         if all(x == 0 for x in _flatten(a)):
@@ -338,6 +345,15 @@ def check_cyc(ctx, lib, c):
             exp = to_cyc_ref(a)
         ctx.count(c, True, "cyc-to_cyc")
         expect(canonical(out) and got == exp, "fq12_map_to_cyclotomic/value", lambda: "a=%r" % (a,))
+        return
+    if op == "exp_gt":
+        g = PR.gt_pow_gen(c["t"])
+        G = conv.fq12_b(F.flat_to_tower(g))
+        name = {"div": "fq12_exp_gt_div", "nodiv": "fq12_exp_gt_nodiv", "auto": "fq12_exp_gt"}[c["how"]]
+        rv, out = lib.op(name, G, conv.bi(c["k"], 256), alias=("a" if c["prefill"] == "base" else None))
+        got = F.tower_to_flat(conv.b_fq12(out))
+        ctx.count(c, True, "cyc-exp_gt-%s" % c["how"] + (":zero-digits" if c["k"] % F.R_ORDER == 0 else ""))
+        expect(canonical(out) and got == PR.gt_pow_gen(c["t"] * c["k"]), "fq12_exponentiate_gt/value", lambda: "case=%r" % (c,))
         return
     if op == "sqr_cyc_gt":
         g = PR.gt_pow_gen(c["t"])
